@@ -131,7 +131,12 @@ def idiom_expr(rng, avail, cfg):
         return ("var", rng.choice(avail)) if avail else lit(rng)
     a, x, y = var(), var(), var()
     n = ("num", rng.choice([2, 3]), 0)
-    k = rng.randrange(17)
+    k = rng.randrange(19)
+    if k >= 17:
+        # powers of integer literals (a printer that spells them as products computes them in integer arithmetic)
+        b = ("num", rng.choice([2, 3, 7, 10, 1291, 46341, 70000]), 0)
+        pw = ("pow", b, n)
+        return ("mul", a, ("div", ("num", 1, 0), pw)) if k == 17 else ("sub", ("mul", x, ("num", 1, -9)), ("mul", pw, ("num", 1, -12)))
     if k >= 14:
         # a branch that is only defined where its guard holds (sqrt / log / a quotient), used as an operand:
         # the other branch is the value wherever the guard fails, whatever the guarded expression does there
